@@ -316,6 +316,7 @@ func checkPremises(c *Ctx) {
 		R.Fail("R09.1", "packets.checkLayers#anchor", 0, "", "anchor checkLayers / GetIPPair no longer resolves")
 	} else {
 		handled := map[string]bool{}
+		getterKeys := map[string]bool{}
 		rps, _ := core.ReturnPaths(c.P, gp, 2000)
 		for _, rp := range rps {
 			if !rp.Results[1].IsConst("nil") {
@@ -325,6 +326,8 @@ func checkPremises(c *Ctx) {
 				nn := a.Norm()
 				if nn.Sign && nn.Cond.Op == "binop" && nn.Cond.Name == "==" && nn.Cond.Args[1].Op == "global" {
 					handled[nn.Cond.Args[1].Name] = true
+					// the expression GetIPPair switches on IS the IP-layer getter, whatever it is called after inlining
+					getterKeys[nn.Cond.Args[0].Key()] = true
 				}
 			}
 		}
@@ -345,7 +348,7 @@ func checkPremises(c *Ctx) {
 				for _, a := range atoms {
 					nn := a.Norm()
 					t := nn.Cond
-					if !nn.Sign || !strings.Contains(t.String(), "GetIPLayer") {
+					if !nn.Sign || !(strings.Contains(t.String(), "GetIPLayer") || t.Has(func(x *core.Term) bool { return getterKeys[x.Key()] })) {
 						continue
 					}
 					switch {
@@ -1320,6 +1323,43 @@ func minLenAt(c *Ctx, S ssa.Value, at ssa.Instruction, depth int) int64 {
 	return best
 }
 
+// maxConstArg: the largest constant any call site inside the module passes for parameter pa; ok is false when some call site
+// passes a non-constant (or the function is called through an interface / as a value).
+func maxConstArg(c *Ctx, pa *ssa.Parameter) (int64, bool) {
+	g := pa.Parent()
+	idx := -1
+	for k, q := range g.Params {
+		if q == pa {
+			idx = k
+		}
+	}
+	n := c.P.CallGraph().Nodes[g]
+	if n == nil || idx < 0 {
+		return 0, false
+	}
+	var mx int64 = -1
+	sites := 0
+	for _, in := range n.In {
+		if in.Caller.Func == nil || !core.InModule(in.Caller.Func) {
+			continue
+		}
+		cc := in.Site.Common()
+		off := len(g.Params) - len(cc.Args)
+		if cc.IsInvoke() || off < 0 || idx-off < 0 || idx-off >= len(cc.Args) {
+			return 0, false
+		}
+		k, ok := cc.Args[idx-off].(*ssa.Const)
+		if !ok || k.Value == nil {
+			return 0, false
+		}
+		sites++
+		if k.Int64() > mx {
+			mx = k.Int64()
+		}
+	}
+	return mx, sites > 0
+}
+
 func proveUpperBound(c *Ctx, f *ssa.Function, lbr token.Pos) (bool, string) {
 	if f == nil || lbr == token.NoPos {
 		return false, ""
@@ -1336,6 +1376,12 @@ func proveUpperBound(c *Ctx, f *ssa.Function, lbr token.Pos) (bool, string) {
 				// (0) a constant index below an established minimum length
 				if k, ok := idx.(*ssa.Const); ok && k.Value != nil && k.Int64() >= 0 && k.Int64() < minLenAt(c, x.X, in, 0) {
 					return true, "constant index below the minimum length established by a dominating comparison (here or at every call site)"
+				}
+				// (0b) the index is a parameter that every call site in the module fills with a constant below the established minimum length
+				if pa, ok := idx.(*ssa.Parameter); ok {
+					if mx, okc := maxConstArg(c, pa); okc && mx >= 0 && mx < minLenAt(c, x.X, in, 0) {
+						return true, "the index is a parameter every caller fills with a constant below the minimum length established by a dominating comparison"
+					}
 				}
 				// (1) idx = slices.IndexFunc(S, ...) on the same slice, behind "found"
 				if call, ok := idx.(*ssa.Call); ok && strings.HasPrefix(core.CalleeName(call.Common()), "slices.Index") && len(call.Common().Args) > 0 && sameSlice(call.Common().Args[0], x.X) {
